@@ -162,6 +162,9 @@ def instances(tier):
             dict(iocb=True, segc=both, segs=both, req=(2, 2), resp=(0, 0), nf=1, kinds=[nl.DROP, nl.DUP], mode="reject"),
             dict(iocb=False, segc=both, segs=both, req=(2, 2), resp=(0, 0), nf=1, kinds=[nl.DROP], mode="abort"),
             dict(iocb=True, segc=both, segs=both, req=(2, 2), resp=(0, 0), nf=0, kinds=[nl.DROP], mode="silent"),
+            # a server that takes a SEGMENTED request (every segment acknowledged) and never answers: retries 1 and 2
+            dict(iocb=False, segc=both, segs=both, req=(60, 60), resp=(0, 0), nf=0, kinds=[nl.DROP], mode="silent"),
+            dict(iocb=True, segc=both, segs=both, req=(100, 100), resp=(0, 0), nf=0, kinds=[nl.DROP], mode="silent", retries=2),
             # retry counts 0 and 3 under total silence from any point on
             dict(iocb=False, segc=both, segs=both, req=(2, 2), resp=(2, 2), nf=1, kinds=[nl.SILENCE], retries=0),
             dict(iocb=True, segc=both, segs=both, req=(2, 2), resp=(2, 2), nf=1, kinds=[nl.SILENCE], retries=3),
@@ -567,9 +570,11 @@ def instances(tier):
              "by the server application, no answer at all}; retry count 0",
       outside="more than k queued requests, several peers (C11), lossy medium (txn)",
       stubs=["virtual clock (task._time)", "asyncore.loop -> clock advance", "task._Trigger -> wake flag", "fresh singletons per path"])
-def iocb_queue(d, k):
+def iocb_queue(d, k, dup=False):
     w = World()
-    lan = nl.FaultLAN([], world=w)
+    # dup: the network duplicates the first request frame, so that the server answers it twice (the second answer is a stray
+    # by the time it arrives: the next request is active then)
+    lan = nl.FaultLAN([nl.Fault(0, nl.DUP, 1)] if dup else [], world=w)
     cdev = nl.make_device("c", 10, numberOfApduRetries=0, apduTimeout=APDU_TIMEOUT)
     sdev = nl.make_device("s", 20)
     client = nl.IOStack(cdev, lan)
@@ -581,7 +586,8 @@ def iocb_queue(d, k):
     orig = server.do_ConfirmedPrivateTransferRequest
 
     def handler(apdu):
-        server.pt_mode = seq[len(server.pt_seen)] if len(server.pt_seen) < len(seq) else "ack"
+        # the fate goes with the request (its payload names it), not with the order of arrival
+        server.pt_mode = seq[bytes(apdu.serviceParameters.cast_out(nl.OctetString))[0]]
         return orig(apdu)
     server.do_ConfirmedPrivateTransferRequest = handler
     ios = []
@@ -601,8 +607,11 @@ def iocb_queue(d, k):
             raise Violation("iocb-outcome", index=i, got=kind, want=want[modes[i]], fates=modes)
         if t > (i + 1) * (APDU_TIMEOUT + APP_TIMEOUT) / 1000.0 + 1:
             raise Violation("iocb-late", index=i, t=t)
-    # served in submission order, each handed to the server application once
+    # served in submission order, each handed to the server application once (a duplicated request frame that arrives after
+    # its transaction is over is a new request to the server: it may be handed over a second time)
     got = [nl.payload_of(r, 'serviceParameters') for r in server.pt_seen]
+    if dup:
+        got = [g for i, g in enumerate(got) if i == 0 or g != got[i - 1]]
     if got != [bytes([i]) for i in range(k)]:
         raise Violation("iocb-order", got=got)
     if nl.residue(client) or nl.residue(server) or not w.idle():
@@ -616,6 +625,8 @@ _c04_instances_2 = instances
 def instances(tier):
     out = _c04_instances_2(tier)
     out.append(Inst(iocb_queue, dict(k=2 if tier == "quick" else 3), budget=80 if tier == "quick" else 600))
+    out.append(Inst(iocb_queue, dict(k=2 if tier == "quick" else 3, dup=True), budget=80 if tier == "quick" else 600,
+                    label="k=%d,first request duplicated" % (2 if tier == "quick" else 3)))
     return out
 
 
